@@ -326,5 +326,7 @@ for _K_, _V_ in dataclasses.asdict(__D__).items():
     afit = core.need(core.find_func(ad, "fit"), "SklearnEKFAdapter.fit")
     ctx.functions.append("python.SklearnEKFAdapter.fit")
     _c17.fit_param_integrity(ctx, ad, _nm.Normaliser(None).function(afit), "FIT")
+    # ... and reach the filter as the values the grid named: Config stores what it is given
+    _c17.config_verbatim(ctx, "FIT")
     c17.set_params_rule(ctx, ad, py)
     return core.finish(ctx, explanation="declared transition graph extraction, typestate (who may construct), BFS discipline, grid/export dataflow", **META)
